@@ -61,7 +61,7 @@ groups = {
  'C14': JSONC + JSONS + ['dig2bytes', 'cellBytesCases'] + bodies(245, 246),
  'C15': ['fnTableMapSrc', 'metadataClass', 'readLenEncIntSrc', 'commonTableIDSrc', 'newBitmapSrc', 'formatHeaderSizeSrc',
          'eTableMapEvent', 'bitmapCountSrc'] + STREAM + ROWCONV,
- 'C16': HDR + ISX + ECONST + ['commonFormatSrc', 'commonRotateSrc', 'commonQuerySrc', 'commonIntVarSrc', 'commonRandSrc',
+ 'C16': STREAM + HDR + ISX + ECONST + ['commonFormatSrc', 'commonRotateSrc', 'commonQuerySrc', 'commonIntVarSrc', 'commonRandSrc',
          'commonTableIDSrc', 'mysql56StripChecksumSrc', 'mariadbStripChecksumSrc', 'formatIsZeroSrc', 'formatHeaderSizeSrc']
         + [k for k in defs if k.startswith('BinlogChecksumAlg') or re.match(r'Q[A-Z]', k) or k.startswith('IntVar')],
  'C17': HDR + ['loopSkeleton', 'parseEventsReturns', 'parseEventsSrc', 'streamBody'],
